@@ -102,6 +102,12 @@ SeqCases == IF C04Pairs = {} THEN {}
             ELSE { [pos |-> i, copt |-> MkCOpt(SeqGate[i])] : i \in DOMAIN SeqGate }
                  \cup { [pos |-> Len(SeqGate) + (q \div 32), copt |-> MkCOpt(q % 32)] : q \in C04Seq }
 ASSUME ndJsonSerialize("c04seq.ndjson", SetToSeq(SeqCases))
+\* Runner-level family (run in every tier): the runners as their user sees them, called as root and as an
+\* unprivileged user (uid 65534), with and without a callback.
+RunnerCases == IF C04Pairs = {} THEN {}
+  ELSE { [level |-> "unshare", caller |-> u, opt |-> UnshareRunnerOpt(y)] : u \in {0, 65534}, y \in BOOLEAN }
+       \cup { [level |-> "ptrace", caller |-> u, opt |-> PtraceRunnerOpt(y, u = 0)] : u \in {0, 65534}, y \in BOOLEAN }
+ASSUME ndJsonSerialize("c04run.ndjson", SetToSeq(RunnerCases))
 ASSUME ndJsonSerialize("c04cases.ndjson", SetToSeq(C04Cases))
 ASSUME ndJsonSerialize("c07cases.ndjson", SetToSeq(C07Cases))
 ASSUME PrintT(<<"generated", Cardinality(C04Cases), Cardinality(C07Cases)>>)
